@@ -43,9 +43,9 @@ def accept_set(prog: Program, clsname: str) -> Dict[str, str]:
 
 
 def run(prog: Program, rep: Report, tier: str) -> None:
-    rep.rule("R19.1", "DeviceType table: every member has a unique 4-hex-digit model code, protocol_type in {1,2}, a DeviceCategory member as category and a distinct value", 9)
+    rep.rule("R19.1", "DeviceType table: every member has a unique 4-hex-digit model code, protocol_type in {1,2}, a DeviceCategory member as category and a distinct value", 9, structural=True)
     rep.rule("R19.2", "each final device class accepts exactly the device types of one category (raises ValueError for all others); class -> category is a bijection onto the categories", 36)
-    rep.rule("R19.3", "both port tables cover all categories; all types of a category share one protocol type p; the table value equals the protocol's UDP/TCP port; each API class defaults to its protocol's TCP port", 10)
+    rep.rule("R19.3", "both port tables cover all categories; all types of a category share one protocol type p; the table value equals the protocol's UDP/TCP port; each API class defaults to its protocol's TCP port", 10, structural=True)
     rep.trusted += ["enum/dataclass semantics of CPython (member tuple -> __new__ parameters, dataclass field order along the MRO)", "spec/ports.json (port numbers from the property statement)"]
     with open(os.path.join(VERIF, "spec", "ports.json")) as fh:
         spec = json.load(fh)
